@@ -10,7 +10,6 @@ crate::harnesses! {
     /// f32 remove_trailing_zeros on a * 10^j (a < 2^12, j <= 5): returns (m', s) with m' * 10^s == m and 10 does not divide m'.
     /// (the contract is PROVED for every input by the Verus unit wf_rtz; this small-domain harness supplies counterexamples)
     /// @prop C02
-    /// @tier thorough
     /// @feat default radix_format
     /// @bound significands a * 10^j with a < 4096, j <= 5
     /// @fn lexical-write-float::algorithm::DragonboxFloat::remove_trailing_zeros[f32]
@@ -32,7 +31,6 @@ crate::harnesses! {
     /// f64 remove_trailing_zeros on a * 10^j (a < 2^10, j <= 14): both branches of the 10^8 test and both loops.
     /// (proved for every input by the Verus unit wf_rtz; counterexample supplier)
     /// @prop C02
-    /// @tier thorough
     /// @feat default radix_format
     /// @bound significands a * 10^j with a < 1024, j <= 14
     /// @fn lexical-write-float::algorithm::DragonboxFloat::remove_trailing_zeros[f64]
@@ -53,7 +51,6 @@ crate::harnesses! {
     /// f64 remove_trailing_zeros on k * 10^8 + d with k < 2^10, d < 4 (values around multiples of 10^8).
     /// (proved for every input by the Verus unit wf_rtz; counterexample supplier)
     /// @prop C02
-    /// @tier thorough
     /// @feat default radix_format
     /// @bound significands k * 10^8 + d, k < 1024, d in 0..=3
     /// @fn lexical-write-float::algorithm::DragonboxFloat::remove_trailing_zeros[f64] (divisibility by 10^8)
@@ -75,7 +72,6 @@ crate::harnesses! {
     /// divide_by_pow10 (f64, exp = 3) == n / 1000 on the top 2^16 values below n_max (where a wrong magic number shows first).
     /// (proved for every n <= n_max by the Verus unit wf_dbmul; counterexample supplier)
     /// @prop C02
-    /// @tier thorough
     /// @feat default radix_format
     /// @bound n in n_max - 65535 ..= n_max
     /// @fn lexical-write-float::algorithm::divide_by_pow10_64
@@ -89,17 +85,18 @@ crate::harnesses! {
         vcheck!(q <= n_max / 1000 && q * 1000 <= n && n - q * 1000 < 1000, "divide_by_pow10_64(n, 3) == n / 1000");
     }
 
-    /// divide_by_pow10 (f32, exp = 2) == n / 100 for every n <= n_max (quotient characterised without a division).
-    /// (also proved by the Verus unit wf_dbmul)
+    /// divide_by_pow10 (f32, exp = 2) == n / 100 on the top 2^16 values below n_max and on the first 2^16 values.
+    /// (proved for every n by the Verus unit wf_dbmul; counterexample supplier)
     /// @prop C02
-    /// @tier thorough
     /// @feat default radix_format
+    /// @bound n in 0..=65535 and n_max - 65535 ..= n_max
     /// @fn lexical-write-float::algorithm::divide_by_pow10_32
-    /// @timeout 1200
+    /// @timeout 900
     fn dragonbox_divide_by_pow10_f32() {
-        let n: u32 = any();
-        let n_max: u64 = (1u64 << 24) * 100 - 1;
-        assume((n as u64) <= n_max);
+        let t: u16 = any();
+        let hi: bool = any();
+        let n_max: u32 = ((1u64 << 24) * 100 - 1) as u32;
+        let n = if hi { n_max - t as u32 } else { t as u32 };
         let q = alg::divide_by_pow10_32(n, 2) as u64;
         vcheck!(q * 100 <= n as u64 && (n as u64) - q * 100 < 100, "divide_by_pow10_32(n, 2) == n / 100");
     }
